@@ -83,8 +83,45 @@ package server
 //@   call (*metadataAPI).FetchPartitionMetadata requires !a.config.TLSClientAuthz || ghost.authz[arg2.Stream]["FetchPartitionMetadata"]
 //@   ensures [refused] old(a.config.TLSClientAuthz) && !ghost.authz[old(req.Stream)]["FetchPartitionMetadata"] ==> err != nil
 
+// (C16: "stored if and only if it is assigned exactly that offset") Whether an expected offset is the right one is
+// decided by the partition leader's log at the moment the message is sequenced, and by nothing else: the API server -
+// whose view of the log is older than that moment (a publisher pipelining "expect N, expect N+1", racers still in
+// flight, a server that follows the partition) - passes the leader's verdict on and never makes one of its own. The
+// verdict is made in one place (the processing loop, on ErrIncorrectOffset from the log) and converted in two.
+//@ ghost var leaderRefused bool
+//@ func convertAckError serves C16
+//@   modifies nothing
+//@   ensures [the-verdict-is-passed-on-as-it-is] (result != nil && result.Code == client.PublishAsyncError_INCORRECT_OFFSET) <==> ackError == client.Ack_INCORRECT_OFFSET
+//@   ensures [no-error-no-refusal] result == nil <==> ackError == client.Ack_OK
+//@ callers convertAckError serves C16: (*apiServer).Publish, (*publishAsyncSession).dispatchAcks$1
+//@ func (*publishAsyncSession).dispatchAcks$1 serves C16
+//@   assumes p != nil && p.apiServer != nil && p.logger != nil && m != nil
+//@   ghost after call UnmarshalAck: ghost.lastAck := ret0
+//@   call convertAckError requires [C16:the-verdict-passed-on-is-the-leader's-ack] arg0 == ghost.lastAck.AckError
+//@ ghost var lastAck *client.Ack
+//@ func (*apiServer).ensurePublishPreconditions serves C16
+//@   assumes a != nil && a.Server != nil && a.metadata != nil && req != nil
+//@   ghost at entry: ghost.ccAsked := false
+//@   ghost after call IsConcurrencyControlEnabled: ghost.ccAsked := true
+//@   ghost after call IsConcurrencyControlEnabled: ghost.ccOfTheLog := ret0
+// a publisher that cannot be told the outcome (ack policy NONE) is refused on a stream with concurrency control -
+// whether the stream has it is what the partition's LOG says (per-stream override or server-wide default alike):
+// that is where the expected offset is enforced
+//@   ensures [C16:a-publisher-that-cannot-be-told-the-outcome-is-refused] result == nil ==> ghost.ccAsked && !(ghost.ccOfTheLog && req.AckPolicy == client.AckPolicy_NONE)
+//@   ensures [C16:no-incorrect-offset-verdict-of-the-api-server's-own] result != nil ==> result.Code != client.PublishAsyncError_INCORRECT_OFFSET
+//@ func (*apiServer).getPublishSubject serves C16
+//@   returns (subject, e)
+//@   assumes a != nil && a.Server != nil && a.metadata != nil && req != nil
+//@   ensures [C16:no-incorrect-offset-verdict-of-the-api-server's-own] e != nil ==> e.Code != client.PublishAsyncError_INCORRECT_OFFSET
+//@ ghost var ccAsked bool
+//@ ghost var ccOfTheLog bool
 //@ func (*apiServer).Publish serves C15, C16
 //@   returns (resp, err)
+//@   ghost at entry: ghost.leaderRefused := false
+//@   ghost after call (*apiServer).publish: ghost.lastAck := ret0
+//@   call convertAckError requires [C16:the-verdict-passed-on-is-the-leader's-ack] arg0 == ghost.lastAck.AckError
+//@   ghost after call convertAckError: ghost.leaderRefused := arg0 == client.Ack_INCORRECT_OFFSET
+//@   call convertPublishAsyncError requires [C16:no-incorrect-offset-verdict-of-the-api-server's-own] arg0 != nil && arg0.Code == client.PublishAsyncError_INCORRECT_OFFSET ==> ghost.leaderRefused
 //@   call (*apiServer).publish requires [C16:carries-the-publisher's-expected-offset] arg5 != nil && arg5.Offset == req.ExpectedOffset
 //@   assumes a != nil && a.Server != nil && a.config != nil && req != nil
 //@   assumes forall r string, x string :: !ghost.authz[r][x]
@@ -117,6 +154,7 @@ package server
 //@ func (*publishAsyncSession).publishLoop serves C15, C16
 //@   requires p != nil && p.apiServer != nil && p.Server != nil && p.config != nil
 //@   call MarshalPublish requires [C16:carries-the-publisher's-expected-offset] arg0 != nil && arg0.Offset == req.ExpectedOffset
+//@   call sendPublishAsyncError requires [C16:no-incorrect-offset-verdict-of-the-api-server's-own] arg2 == nil || arg2.Code != client.PublishAsyncError_INCORRECT_OFFSET
 //@   ghost at loop 1: ghost.authz := reset()
 //@   call (*apiServer).resumeStream requires !p.config.TLSClientAuthz || ghost.authz[arg2]["Publish"]
 //@   call Publish requires !p.config.TLSClientAuthz || ghost.authz[req.Stream]["Publish"]
